@@ -1,8 +1,8 @@
 package main
 
 import (
-	"os"
 	"fmt"
+	"os"
 	"sort"
 
 	hg "github.com/mosaicnetworks/babble/src/hashgraph"
